@@ -22,6 +22,7 @@ UNITS = {
     'SERSTR': dict(template='serstr.rs', rlimit=40),
     'BYTEREADER': dict(template='bytereader.rs', rlimit=60),
     'TXNCTRL': dict(template='txnctrl.rs', rlimit=40),
+    'HEADERS': dict(template='headers.rs', rlimit=30),
 }
 
 VARW = 'PROVED for every value (units SERSTR + READERS): strings, symbols and binaries of ANY length and content, outside and inside arrays -- the serializer writes a valid str8/str32, sym8/sym32, vbin8/vbin32 encoding whose size field counts octets ([C05.*.encoding], [C05.*.array-element]); the decoder reads both width variants by the AMQP layout and accepts every one of them from a reliable reader ([C05.*.decoding], [C05.*.every-variant-accepted]); lemma_var_round_trip joins the two: decode(encode(x) ++ rest) == x, consuming exactly the encoding; serialized_size agrees with the octets written ([C20.size.*]); compound headers are decoded to the body length and count the layout defines ([C05.compound.header-decoding])'
@@ -114,14 +115,14 @@ PROPS = {
                      'allocation is modelled at the request sites that take a length from the wire (vec![0u8; n], Vec::resize): their stand-ins carry the bound as a precondition; Vec growth inside read_to_end/push/append is std-amortised and proportional to the bytes appended; String::from_utf8(buf) reuses buf',
                      'the stream behind IoReader is an arbitrary byte source that may fail at any point; fewer than 2^64 bytes pass through a reader']),
     'C19': dict(
-        units=['FRAMEDEC', 'SASLNEG', 'SASLMECH'], kani=K_SASL, level='proof', title='SASL (listener loop, PLAIN and SCRAM mechanisms, SCRAM client and client loop under contract; crypto and string library calls uninterpreted)',
+        units=['FRAMEDEC', 'SASLNEG', 'SASLMECH', 'HEADERS'], kani=K_SASL, level='proof', title='SASL (listener loop, PLAIN and SCRAM mechanisms, SCRAM client and client loop under contract; crypto and string library calls uninterpreted)',
         level_text='Under Verus contracts: (1) the listener negotiation loop (acceptor/connection.rs negotiate_sasl_with_framed: an AMQP connection is negotiated only after an outcome with code OK was produced by the mechanism and sent; anything else ends in Err); (2) the listener mechanisms: PLAIN (validate_credential / validate_init / on_init / on_response: OK only for the configured user name and password, byte for byte) and SCRAM (ScramVersion::compute_server_final_message, ScramAuthenticator::compute_server_final_message, on_init, on_response: OK only when H(proof XOR HMAC(StoredKey, AuthMessage)) == StoredKey for the user and the combined nonce of this exchange); (3) the SCRAM client (ScramVersion::{compute_client_final_message, validate_server_final, compute_server_signature, compute_client_proof}, auth_message, without_proof, client_final, ScramClient::{compute_client_final_message, validate_server_final}, SaslProfile::on_frame) and the client negotiation loop Builder::negotiate_sasl: Ok only on an outcome frame with code OK, and for a SCRAM profile only if that outcome carries HMAC(ServerKey(password, salt, i), AuthMessage) over an exchange whose server-first message was received as a challenge and whose nonce extends the client nonce; (4) the SASL frame decoder (any body yields Ok or Err, a non-SASL frame type is refused). HMAC/SHA/PBKDF2/XOR, base64 and the str operations are uninterpreted functions. In addition the PLAIN validator is checked by Kani on the real fe2o3-amqp crate for every initial response up to 7 bytes against an independent oracle -- a BOUNDED stand-in listed under bounded_obligations, not counted as proved.',
         assumptions=[
             'cryptographic primitives (hmac, h, h_i/compute_salted_password, xor), base64 encode/decode, str::{split, strip_prefix, starts_with, parse}, from_utf8, the NUL-split iterator and bytes::BufMut on Vec<u8> are stand-ins with uninterpreted results: the contracts say WHICH values are compared and hashed, not that HMAC is unforgeable',
             'byte-vector comparisons (Vec<u8> == &[u8], &[u8] != &[u8]) are replaced by extensional equality of the byte sequences (Verus gives these PartialEq impls no specification); if such a comparison disappears from a function altogether the function is verified without it (and fails), if it is rewritten in another form the check reports undecided',
             'lengths of strings handled during SASL are below 2^32 (Vec::with_capacity sums); Arc<String> erased to String',
             'the listener loop is under contract with the mechanism as a stand-in, and the mechanisms are under contract separately: the composition (loop says OK => mechanism said OK => credentials valid) is by reading the two contracts together, not one machine-checked theorem',
-            'NOT DECIDED: the first SCRAM steps (client_first_message, compute_server_first_message: nonce generation, user lookup) are stand-ins; which mechanism gets selected; a skipped SASL layer / premature AMQP header (protocol-header codec); SaslProfile::initial_response',
+            'NOT DECIDED: the first SCRAM steps (client_first_message, compute_server_first_message: nonce generation, user lookup) are stand-ins; which mechanism gets selected; SaslProfile::initial_response; the protocol-header CODEC (8 bytes <-> ProtocolHeader) -- the header exchange functions themselves are under contract in unit HEADERS (a peer that skips the SASL layer or sends another header/version is refused before any frame codec exists)',
             'bounded (Kani): PLAIN initial responses of <= 7 bytes with a fixed 2-byte user and password',
             'PLAIN does not check that init.mechanism == PLAIN and ignores fields after the third NUL (observed, not part of the property)']),
     'C06': dict(
@@ -155,7 +156,7 @@ PROPS = {
             'ReceiverInner::set_credit / drain are not under contract',
             'the overrun error being turned into a detach frame by the link/engine is not verified']),
     'C12': dict(
-        units=['CONN', 'CONNENG'],
+        units=['CONN', 'CONNENG', 'HEADERS'],
         lemmas={'CONNENG': ['lemma_extc_trans']}, kani=[], level='proof', title='Connection lifecycle',
         assumptions=[ASYNC,
             'that the connection engine event loop (select!) drives only these transition functions, and calls send_open/send_close once each, is not verified',
